@@ -32,6 +32,8 @@ class Scenario:
         self.max_states = max_states
         self.recheck_every = recheck_every
         self.note = note
+        # wall-clock budget of one scenario (seconds); a run that exceeds it stops after the current level and reports the cap
+        self.max_wall = float(os.environ.get("VERIF_SCENARIO_WALL", "0") or 0) or None
 
 
 class Result:
@@ -234,6 +236,9 @@ def explore(scn, nproc=None, log=None, stop_on_violation=False, max_violations=2
             frontier = nxt
             depth += 1
             res.max_depth = depth
+            if scn.max_wall and frontier and time.time() - t0 > scn.max_wall:
+                res.caps_hit.append("wall budget %.0fs reached at depth %d with %d frontier states" % (scn.max_wall, depth, len(frontier)))
+                frontier = []
             if [v for v in res.violations if (v["oracle"], v.get("sig")) not in _known_sigs()]:
                 # a new violation is on record: finish at most two more levels (to collect sibling signatures), then stop
                 first_viol_depth = getattr(res, "_first_viol_depth", None)
